@@ -39,6 +39,7 @@ def run(chk: Check) -> None:
     run_request_dict(chk, ix, serve, loop)
     run_stop_state(chk, ix, serve, loop)
     run_client_paths(chk, ix)
+    run_handlers_flush_and_no_asserts(chk, ix)
 
     # ------------- R16.1
     r1 = chk.rule("R16.1", "every exception class that connection I/O or frame decoding may raise inside the serve loop is caught inside the loop by a handler that neither re-raises nor leaves the loop (intended exits identified structurally)", floor=4)
@@ -476,3 +477,55 @@ def run_client_paths(chk: Check, ix) -> None:
                 r7.violation(key, f.loc(c), "an OSError from this open() (missing directory, no permission) leaves the handler, is reported as `Daemon crashed!` and re-raised: the daemon exits because of a bad path in an otherwise well-formed request")
     if n < 1:
         raise AnalysisError("no command handler opens a client-supplied path any more (rule has nothing to check)")
+
+
+def run_handlers_flush_and_no_asserts(chk: Check, ix) -> None:
+    """R16.8 / R16.9: what a rejected or unusual request leaves behind in the daemon."""
+    from ..cfg import CFG
+    srv = ix.cls("mypy.dmypy_server.Server")
+    r8 = chk.rule("R16.8", "the daemon's FileSystemCache keeps stat/listdir/read results until flush_caches(); a command handler that hands self.fscache to create_source_list passes flush_caches() (directly or through check(), which ends with it) on every path to a return, also on the InvalidSourceList path: otherwise the results cached while a *rejected* request was looked at are still there for the next request, whose find_changed() then misses an edit", floor=3)
+    flushers = {"flush_caches", "check"}
+    n8 = 0
+    for name, f in sorted(srv.methods.items()):
+        if not name.startswith("cmd_"):
+            continue
+        uses = [c for c in ast.walk(f.node) if isinstance(c, ast.Call) and call_name(c) == "create_source_list" and any("fscache" in norm(a) for a in c.args)]
+        uses += [c for c in ast.walk(f.node) if isinstance(c, ast.Call) and call_name(c) == "process_options" and any("fscache" in norm(k.value) for k in c.keywords)]
+        if not uses:
+            continue
+        g = CFG(f.node)
+        fl = [nd for nd in g.nodes if nd.stmt is not None and nd.kind == "stmt" and any(isinstance(c, ast.Call) and call_name(c) in flushers and norm(c.func).startswith("self.") for c in ast.walk(nd.stmt))]
+        for h in ast.walk(f.node):
+            if isinstance(h, ast.ExceptHandler) and h.type is not None and "InvalidSourceList" in norm(h.type):
+                n8 += 1
+                key = f"{name}: the InvalidSourceList reply flushes the file system cache"
+                rets = [s for s in h.body if isinstance(s, ast.Return)]
+                flushed = any(isinstance(c, ast.Call) and call_name(c) == "flush_caches" for s in h.body for c in ast.walk(s))
+                if flushed or not rets:
+                    r8.ok(key, f.loc(h))
+                else:
+                    r8.violation(key, f.loc(h), "the handler answers {status: 2} without flush_caches(): stat and listdir results cached by create_source_list for the rejected request survive into the next request")
+    if n8 < 3:
+        raise AnalysisError(f"only {n8} InvalidSourceList handlers found in Server.cmd_* methods")
+    r9 = chk.rule("R16.9", "a command handler (Server.cmd_*) does not `assert` a condition on its own parameters: they are filled from the client's request, and an AssertionError in a handler takes the crash-report-and-exit path of serve() (a legal `dmypy recheck --update` ended the daemon)", floor=1)
+    n9 = 0
+    for name, f in sorted(srv.methods.items()):
+        if not name.startswith("cmd_"):
+            continue
+        params = {a.arg for a in f.params} - {"self"}
+        key = f"{name}: no assert on a client-supplied parameter"
+        bad = None
+        par = f.module.parents()
+        from ..cfg import branch_conditions
+        for a in ast.walk(f.node):
+            if isinstance(a, ast.Assert) and ({x.id for x in ast.walk(a.test) if isinstance(x, ast.Name)} & params):
+                # an assert that an earlier exit already guarantees (the same names tested and returned on) is fine
+                pos, neg = branch_conditions(par, f.node, a, early_exits=True)
+                guarded = any(({x.id for x in ast.walk(t) if isinstance(x, ast.Name)} & params) for t in neg)
+                if not guarded:
+                    bad = a
+        n9 += 1
+        if bad is None:
+            r9.ok(key, f.loc())
+        else:
+            r9.violation(key, f.loc(bad), f"`{norm(bad)[:80]}` is a condition on request data with no earlier exit for the other case: a client that sends it crashes the daemon")
